@@ -13,6 +13,7 @@
 (*   relock            a mutex locked while already held (self deadlock)   *)
 (*   unlock-unheld     a mutex unlocked that is not held                   *)
 (*   held-at-return    a function returns still holding a mutex it locked  *)
+(*   netio-under-lock  an outbound network request made while a mutex is held *)
 (*   unprotected       a shared field touched on a path where its mutex is *)
 (*                     not held (outside construction context)             *)
 (* and, as information, nesting edges (for the acyclic lock order) and     *)
@@ -52,6 +53,12 @@ Exec(o) ==
          /\ held' = held
          /\ IF OnStack(o[2]) THEN stack' = SetTop([t EXCEPT !.i = @ + 1])
             ELSE stack' = Append(SetTop([t EXCEPT !.i = @ + 1]), Frame(o[2]))
+    [] o[1] = "netio" ->
+         \* an outbound request made while a mutex is held: the peer decides how long everybody else waits
+         /\ Quiet(held # {}, "netio-under-lock", o[2], o[3])
+         /\ \A h \in held : PrintT(<<"LOCKCFG", "netio-holding", h, o[3], "root", root>>)
+         /\ held' = held
+         /\ stack' = SetTop([t EXCEPT !.i = @ + 1])
     [] o[1] = "acc" ->
          \* construction context: somewhere below a New... function the object is not shared yet
          /\ Quiet(Prot(o[2]) \notin held /\ root \notin Ctors /\ ~(\E k \in 1..Len(stack) : stack[k].f \in News),
